@@ -27,6 +27,8 @@ fixed(["C01"], "library-client:raced-across-control-and-blob-connection", "fix: 
       "until enableBLOB Only takes effect the BLOB connection also receives every non-BLOB message; a late copy overwrote newer state from the control connection (found by the quick seed sweep, VERIF_SEED=6)")
 fixed(["C12"], "later-valid-request-unanswered:*:number-huge-finite-to-sexagesimal-format", "fix: rendering a huge number in a sexagesimal format",
       "a client could store 1e308 in a sexagesimal-format number; num_to_str then raised OverflowError on every definition/update of that vector")
+fixed(["C20"], "unequal-compare-equal:child-kind-changed*", "fix: message equality takes the kind of each child",
+      "two messages whose children differ only in kind (same name, attributes and value text) compared equal: to_dict() of a child does not hold its kind")
 known("C08", "payload-longer-than-threshold-on-threshold-enabled-link",
       "a BLOB message longer than the 2048-character junk threshold is discarded as junk by a framing buffer whose threshold is enabled "
       "(every client->driver upload on the server side; driver->client on a connection that asked for enableBLOB Also without for_blobs) "
